@@ -1116,7 +1116,6 @@ package statefulset
 //@   modifies gApiFails, gWrites, gPodTouch, gCtlFails, gStatusWrites, gRevCreates, gRevUpdates, gRevDeleted, gRevDelCount, gTrimRan, gTrimLen, gAlloc0, gTmplLo, gTmplHi, gNewRev
 //@   ensures gApiFails >= old(gApiFails) && gWrites >= old(gWrites) && gPodTouch >= old(gPodTouch)
 //@   profile defaulted ensures [C11] deletinghandsoff: set.DeletionTimestamp != nil ==> gPodTouch == old(gPodTouch)
-//@   profile defaulted ensures [C10] cacheuntouched: true
 //@   profile defaulted ensures [C09] podfailuresreported: gCtlFails > old(gCtlFails) ==> result != nil
 //@   profile defaulted ensures [C09] origin: result != nil ==> gCtlFails > old(gCtlFails) || gApiFails > old(gApiFails) || errLocal(result) || errSelector(result)
 
